@@ -16,15 +16,15 @@ from .common import describe_violation, result, compare_nlps, bind_positional
 
 PROP = 'C13'
 LEVEL = 'translation_validation'
-OPS = ['Q_sample', 'Q_value', 'Q_jac', 'SOLVE', 'SV', 'SI', 'ST', 'CC', 'AO', 'M', 'S', 'T', 'T0']
+OPS = ['Q_sample', 'Q_value', 'Q_jac', 'SOLVE', 'SV', 'SI', 'ST', 'CC', 'AO', 'M', 'S', 'T', 'T0', 'TF', 'T0F']
 META = {
     'rule': 'instance = history: declare; transcribe; then a sequence over {sample, value, jacobian, solve_limited, set_value, set_initial, subject_to, clear_constraints, '
-            'add_objective, method, solver, set_T, set_t0} of length <=2 (quick, exhaustive) / 3 (thorough, sampled).  The evolved OCP and a FRESH OCP written with the final '
+            'add_objective, method, solver, set_T, set_t0 (number and FreeTime)} of length <=2 (quick, exhaustive) / 3 (thorough, sampled).  The evolved OCP and a FRESH OCP written with the final '
             'specification are both transcribed by the real code; rows and objective must be equal for all x (z3), x0/p/solver iteration limit equal (ground).  Accepted '
             'outcome of an edit after transcription: equal NLP or an exception; silently different = violation.  distinct = by history',
     'functions': ['rockit/ocp.py:_transcribed/_transcribe/_untranscribe/solver/solve_limited', 'rockit/stage.py:_set_transcribed and every mutator (set_T, set_t0, subject_to, clear_constraints, add_objective, method, set_value, set_initial)',
                   'rockit/direct_method.py:main_transcribe/inherit/untranscribe', 'rockit/sampling_method.py:clean/untranscribe'],
-    'bounds': 'histories enumerated (not symbolic) up to length 2 exhaustively / 3 sampled over 13 operations x base method in {MS, SS, DC}; N=2, M in {1,2}; plus edits (subject_to, add_objective, set_T, clear_constraints) made on a sub-stage of a two-stage OCP after a transcription',
+    'bounds': 'histories enumerated (not symbolic) up to length 2 exhaustively / 3 sampled over 15 operations x base method in {MS, SS, DC}; N=2, M in {1,2}; plus edits (subject_to, add_objective, set_T, clear_constraints) made on a sub-stage of a two-stage OCP after a transcription',
     'outside': 'longer histories; callbacks; external methods; the numeric result of a full solve (only the iteration limit in effect is observed through sol.stats)',
     'assumptions': ['variables of the evolved and the fresh transcription correspond by creation order', 'reals for floats'],
 }
@@ -112,6 +112,16 @@ def apply_op(op, b, spec, cfg, state):
         v = Fr(n, 4)
         ocp.set_t0(float(v))
         spec.t0 = ('num', v)
+    elif op == 'TF':
+        from ..extract import FreeTime
+        v = Fr(5 + n, 4)
+        ocp.set_T(FreeTime(float(v)))          # release the horizon with a guess
+        spec.T = ('free', v)
+    elif op == 'T0F':
+        from ..extract import FreeTime
+        v = Fr(n, 8)
+        ocp.set_t0(FreeTime(float(v)))
+        spec.t0 = ('free', v)
     else:
         raise ValueError(op)
     return spec, cfg
@@ -255,14 +265,18 @@ def run(item):
     else:
         ch.proved.append('declared lists unchanged')
     twins_ok = twins_bad = 0
-    if item.get('twin', True) and any(o in ('ST', 'AO', 'T', 'T0') for o in hist) and 'M' not in hist and 'CC' not in hist:
+    if item.get('twin', True) and any(o in ('ST', 'AO', 'T', 'T0', 'TF', 'T0F') for o in hist) and 'M' not in hist and 'CC' not in hist:
         # vacuity guard: against a fresh OCP with the ORIGINAL specification the comparison must fail
         with quiet():
             b0 = declare(item['spec'], item['cfg'])
             b0.ocp.solver('ipopt', dict(opts0))
         ch2 = Checker(E_, timeout_ms=5000)
-        F0 = Inst(item['spec'], item['cfg'], seed=item.get('seed', 0), built=b0, solver=False, like=E_, bind=bind_positional())
-        d0, _ = compare_nlps(ch2, E_, F0, 'evolved', 'original')
+        from ..sx2smt import HarnessError
+        try:
+            F0 = Inst(item['spec'], item['cfg'], seed=item.get('seed', 0), built=b0, solver=False, like=E_, bind=bind_positional())
+            d0, _ = compare_nlps(ch2, E_, F0, 'evolved', 'original')
+        except HarnessError:
+            d0 = ['different number of variables']      # e.g. a released horizon adds a decision variable
         if d0:
             twins_ok += 1
         else:
